@@ -347,8 +347,21 @@ _public_ int m_map_put(m_map_t *m, const char *key, void *value) {
     M_PARAM_ASSERT(key);
     M_PARAM_ASSERT(value);
     
-    /* Find a place to put our value */
-    return hashmap_put(m, m->flags & M_MAP_KEY_DUP ? mem_strdup(key) : key, value);
+    if (!(m->flags & M_MAP_KEY_DUP)) {
+        /* Find a place to put our value */
+        return hashmap_put(m, key, value);
+    }
+    
+    /* Dupped keys are owned by the map: release the copy whenever it did not end up stored */
+    char *dupkey = mem_strdup(key);
+    M_ALLOC_ASSERT(dupkey);
+    const size_t len = m->length;
+    int ret = hashmap_put(m, dupkey, value);
+    if (ret != 0 || m->length == len) {
+        /* Failure, or value updated for an already stored key */
+        memhook._free(dupkey);
+    }
+    return ret;
 }
 
 /*
